@@ -15,6 +15,7 @@ pub const TRY: u8 = 1;
 pub const YIELD: u8 = 2;
 pub const SLEEP: u8 = 3; // arg ns
 pub const CANCEL: u8 = 20; // (target actor, delay ns)
+pub const CANCEL_AT: u8 = 21; // (target actor, (op index << 16) | delay ns): aimed at the begin of an operation
 
 const OK: i64 = 0;
 const WOULD_BLOCK: i64 = 1;
@@ -45,13 +46,23 @@ pub fn spawn_cancellers(case: &Case, handles: &[Option<may::coroutine::Coroutine
         let mut plan = vec![];
         for op in &a.ops {
             if let Some(Some(co)) = handles.get(op.1 as usize) {
-                plan.push((co.clone(), op.2 as u64));
+                plan.push((co.clone(), op.0, op.1 as usize, op.2 as u64));
             }
         }
         out.push(spawn(a.ctx, "canceller", move || {
-            for (co, delay) in plan {
-                if delay > 0 {
-                    sleep_ns(delay);
+            for (co, kind, target, arg) in plan {
+                if kind == CANCEL_AT {
+                    // aimed: a few schedule points after the target has entered its op `idx`
+                    // (check - yield - register - re-check of a blocking operation)
+                    if let Some(st) = States::current() {
+                        st.wait_reached(target, (arg >> 16) as usize);
+                    }
+                    let d = arg & 0xffff;
+                    if d > 0 {
+                        sleep_ns(d);
+                    }
+                } else if arg > 0 {
+                    sleep_ns(arg);
                 }
                 unsafe { co.cancel() };
             }
@@ -211,7 +222,10 @@ pub fn run(case: &Case) -> Outcome {
 }
 
 pub fn canceller_strategy(n_actors: usize, max_delay_ns: u32) -> BoxedStrategy<Option<Actor>> {
-    let one = (0..n_actors as u32, prop_oneof![2 => 0u32..3_000, 1 => 0u32..max_delay_ns.max(1)]).prop_map(|(t, d)| Op(CANCEL, t, d));
+    let one = prop_oneof![
+        2 => (0..n_actors as u32, prop_oneof![2 => 0u32..3_000, 1 => 0u32..max_delay_ns.max(1)]).prop_map(|(t, d)| Op(CANCEL, t, d)),
+        1 => (0..n_actors as u32, 0u32..5, prop_oneof![1 => Just(0u32), 2 => 0u32..2_500]).prop_map(|(t, idx, d)| Op(CANCEL_AT, t, (idx << 16) | d)),
+    ];
     prop_oneof![
         2 => Just(None),
         1 => (0u8..2, proptest::collection::vec(one, 1..3)).prop_map(|(ctx, ops)| Some(Actor { ctx, role: 9, ops })),
